@@ -151,6 +151,7 @@ def run(ctx, rep):
     g1justify(ctx, rep)
     cursor(ctx, rep)
     wiresig(ctx, rep)
+    uniqueid(ctx, rep)
 
     from ..rejects import run_rejects
     rep.rules_text.append("REJECT-LEDGER: every constant-bound rejection of a stream-derived field in the readers (a branch outcome that only reaches failing returns on `field op constant`) is listed in the frozen ledger rules/rejects.json; a new one narrows what the reader accepts")
@@ -249,3 +250,63 @@ def wiresig(ctx, rep, ids=None, floor=None):
     tab = load_table("wiresig.json")
     want = len([p for p in tab["pairs"] if p.get("writer") and (ids is None or p["id"] in ids)])
     rep.floor("WIRESIG pairs compared", n, want if floor is None else floor)
+
+
+def uniqueid(ctx, rep):
+    """UNIQUEID: PointCloud::AddAttribute / SetAttribute overwrite the attribute's unique id with its index
+    (fact re-checked on every run).  A decoder that adds an attribute described by the stream must therefore
+    restore the decoded id afterwards: on every path from the AddAttribute call to the next item / a success
+    return there is a set_unique_id(<stream-derived value>)."""
+    from ..taintcheck import engine
+    from ..taint import is_src
+    from ..cfgutil import blocks_calling
+    F = ctx.F
+    eng = engine(ctx)
+    rep.rules_text.append(
+        "UNIQUEID: PointCloud::SetAttribute assigns unique id := attribute index (checked); in decoder-layer code "
+        "every PointCloud::AddAttribute of a stream-described attribute is followed, on every path to the next "
+        "item or a success return, by set_unique_id(<value decoded from the stream>): attributes (and animation "
+        "tracks) are matched by unique id")
+    overwrites = any(strip_targs(n.get("fn") or "").endswith("::set_unique_id")
+                     for fn in F.find("draco::PointCloud::SetAttribute") for n, b, rk, ev in fn.calls())
+    rep.add(Obligation("UNIQUEID", "draco::PointCloud::SetAttribute", "overwrites the unique id", "-",
+                       DISCHARGED, detail="SetAttribute %s the unique id" % ("overwrites" if overwrites else
+                                                                             "no longer overwrites"), trivial=True))
+    n_real, fired = 0, False
+    for fn in eng.scope:
+        is_ctl = fn.name.startswith("verif_control::")
+        if not is_ctl and "/draco/compression/" not in fn.file:
+            continue
+        ft = eng.ft[fn.key]
+        adds = [(n, b) for n, b, rk, ev in fn.calls()
+                if strip_targs(n.get("fn") or "") in ("draco::PointCloud::AddAttribute", "draco::PointCloud::SetAttribute")
+                and len(n.get("args") or []) <= 2 and "unique_ptr" in " ".join(n.get("pt") or [])]
+        if not adds or not overwrites:
+            continue
+        # does the function read an id from the stream at all?  (an attribute built from decoded descriptors)
+        if not any(is_src(l) for labs in ft.place_labels.values() for l in labs):
+            continue
+        setters = set()
+        for n, b, rk, ev in fn.calls():
+            if strip_targs(n.get("fn") or "").endswith("::set_unique_id"):
+                a = (n.get("args") or [None])[0]
+                if a is not None and any(is_src(l) for l in ft.labels(a, b)):
+                    setters.add((b, n.get("i", 0)))
+        for n, b, in adds:
+            loops = sorted([l for l in fn.loops() if b in l[1]], key=lambda l: len(l[1]))
+            stop = {loops[0][0]} if loops else set()
+            later_same_block = any(sb == b and si > n.get("i", 0) for sb, si in setters)
+            sblocks = {sb for sb, si in setters if sb != b}
+            region = fn.reachable(start=b, removed_blocks=(sblocks | set()) - {b})
+            escapes = (not later_same_block) and (bool(region & stop) or fn.exit in region)
+            ok = later_same_block or not escapes
+            n_real += 0 if is_ctl else 1
+            fired |= is_ctl and not ok
+            rep.add(Obligation("UNIQUEID", fn.base, "AddAttribute of a stream-described attribute",
+                               fn.site(n.get("loc", "")), DISCHARGED if ok else VIOLATION,
+                               detail="the decoded unique id is restored after AddAttribute on every path" if ok else
+                               "after PointCloud::AddAttribute (which sets unique id := index) a path reaches the next "
+                               "item / exit without set_unique_id(<decoded id>): attributes are no longer found under "
+                               "the id they were encoded with", control=is_ctl))
+    rep.floor("UNIQUEID: decoder-layer AddAttribute sites", n_real, 1)
+    rep.control("UNIQUEID", "uniqueid_bad", fired, "missing restore of the decoded unique id must be reported")
